@@ -29,7 +29,7 @@ from checks import c10
 
 PROP = 'C11'
 LEVEL = 'exploration'
-RULE = ('base file = synthesised world W1 on layouts v19/v20/v21/v21-L4D2/INFRA/Chaos (with and without LZMA lumps); assigned '
+RULE = ('base file = synthesised world W1 on layouts v19/v20/v21/v21-L4D2/INFRA/Chaos/VitaminSource (with and without LZMA lumps); assigned '
         'values = srctools objects built from a second world W2 (lists of length 0..n, shared planes/texinfo/vertices/edges/'
         'primitives/leafs, all 6 plane types, random 31-bit contents and surface flags, all leaf flags, 3 detail orientations, '
         'model/sprite/both shape detail props, static props in the 13 writer versions V4..V13/lightmap/Mesa with only the '
@@ -42,7 +42,9 @@ RULE = ('base file = synthesised world W1 on layouts v19/v20/v21/v21-L4D2/INFRA/
         '(reader documents overwriting them), static-prop fields a version does not store are not compared, node/leaf '
         'bounds integral on integer layouts, material names compared case-insensitively when only some views are replaced '
         '(the texture table is documented as case-insensitive), output delays short decimals (text field), static prop version taken from '
-        'the base file (props are read before being replaced).')
+        'the base file (props are read before being replaced); on VitaminSource only the fields that layout stores are '
+        'generated (no side/on_node/fog/styles/light offset/area/primitives/smoothing/original face/Hammer id on faces; leaf '
+        'bounds non-negative) and fit mutations are limited to fields it writes.')
 ASSUMPTIONS = list(c10.ASSUMPTIONS) + ['"does not fit" is asserted for integer range, name length and overlay face count only']
 JOBS = {'quick': 4, 'thorough': 16}
 
@@ -63,6 +65,7 @@ def materialise(W: dict, rng: Any = None, pool: Optional[Dict[str, list]] = None
         return own[idx]
 
     V: Dict[str, Any] = {}
+    vit = G.LAYOUTS[W['layout']]['kind'] == 'vitamin'
     planes = [bm.Plane(Vec(p['normal']), p['dist'], bm.PlaneType(p['type'])) for p in W['planes']]
     verts = [Vec(v) for v in W['vertexes']]
     edges = [bm.Edge(pick('vertexes', verts, a), pick('vertexes', verts, b)) for a, b in W['edges']]
@@ -76,19 +79,19 @@ def materialise(W: dict, rng: Any = None, pool: Optional[Dict[str, list]] = None
     def face(f: dict, kind: str, i: int, origs: list) -> Any:
         split = kind != 'orig'
         hid = None
-        if split and i < len(W['faceids']):
+        if split and i < len(W['faceids']) and not vit:
             hid = W['faceids'][i]
         return bm.Face(
             pick('planes', planes, f['plane']), bool(f['side']), bool(f['on_node']),
             surf[f['first_edge']:f['first_edge'] + f['num_edges']], pick('texinfo', texinfo, f['texinfo']) if split else None,
             f['dispinfo'], f['fog'], f['styles'], f['lightofs'], f['area'], tuple(f['lm_mins']), tuple(f['lm_size']),
-            origs[f['orig']] if split else None, prims[f['first_prim']:f['first_prim'] + f['num_prims']], bool(f['dyn']),
-            f['smooth'], hid, 0)
+            origs[f['orig']] if split and not vit else None, prims[f['first_prim']:f['first_prim'] + f['num_prims']], bool(f['dyn']),
+            f['smooth'], hid, f.get('vflags', 0))
     orig_faces = [face(f, 'orig', i, []) for i, f in enumerate(W['orig_faces'])]
     faces = [face(f, 'ldr', i, orig_faces) for i, f in enumerate(W['faces'])]
     hdr_faces = [face(f, 'hdr', i, orig_faces) for i, f in enumerate(W['hdr_faces'])]
     sides = [bm.BrushSide(pick('planes', planes, s['plane']), pick('texinfo', texinfo, s['texinfo']), s['dispinfo'],
-                          bool(s['bevel'] & 1), s['bevel'] & ~1) for s in W['brushsides']]
+                          bool(s['bevel'] & 1), s['extra'] if vit else s['bevel'] & ~1) for s in W['brushsides']]
     brushes = [bm.Brush(bm.BrushContents(b['contents']), sides[b['first_side']:b['first_side'] + b['num_sides']])
                for b in W['brushes']]
     leafs = [bm.VisLeaf(bm.BrushContents(lf['contents']), lf['cluster'], lf['area'], bm.VisLeafFlags(lf['flags']),
@@ -235,7 +238,7 @@ class Deep:
         def body(f: Any) -> Any:
             d = {'plane': self.plane(f.plane), 'side': bool(f.same_dir_as_plane), 'on_node': bool(f.on_node),
                  'edges': [self.edge(e) for e in f.edges], 'dispinfo': f._dispinfo_ind, 'fog': f.surf_fog_volume_id,
-                 'styles': bytes(f.light_styles).hex(), 'lightofs': f._lightmap_off, 'area': f.area,
+                 'styles': bytes(f.light_styles).hex(), 'lightofs': f._lightmap_off, 'area': float(f.area),
                  'lm_mins': list(f.lightmap_mins), 'lm_size': list(f.lightmap_size), 'prims': [self.prim(p) for p in f.primitives],
                  'dyn': bool(f.dynamic_shadows), 'smooth': f.smoothing_groups}
             return d
@@ -460,6 +463,7 @@ def engine_replace_all(run, seed: int, ci: int, layout: str, tmp: str, sprp: str
                       f'{G.safe(d["want"])} got {G.safe(d["got"])}', witness=d, key=c10.classify('content', d),
                       engine='replace-all', case=case)
     run.count('replace_all_compared')
+    run.count('layout_' + layout)
     run.count('sprp_' + sprp)
     if W2['sprp']['props']:
         run.count('static_props_roundtripped', len(W2['sprp']['props']))
@@ -513,6 +517,7 @@ def engine_single(run, seed: int, ci: int, layout: str, tmp: str) -> None:
                           f'{G.safe(d["want"])} got {G.safe(d["got"])}', witness=dict(d, view=v), key=classify_deep(v, d),
                           engine='single', case=case)
         run.count('single_views_compared')
+        run.count('layout_' + layout)
         run.count('view_' + v)
     try:
         G.dump_bsp(g)  # the whole file must still be parseable (bystander views consistent)
@@ -560,6 +565,7 @@ def fit_mutations(layout: str, sprp: str) -> List[Tuple[str, Callable[[Dict[str,
     from srctools.const import SurfFlags
     import srctools.bsp as bm
     wide = layout == 'chaos'
+    vit = layout == 'vitamin'
     big16 = (1 << 31) if wide else 40000
     ubig16 = (1 << 32) if wide else 70000
     lightmap = sprp.startswith('V_LIGHTMAP')
@@ -602,11 +608,11 @@ def fit_mutations(layout: str, sprp: str) -> List[Tuple[str, Callable[[Dict[str,
         ('overlay-65-faces', overlay65),
         ('overlay-id', setter('overlays', 'id', 1 << 31)),
         ('face-smoothing-groups', setter('faces', 'smoothing_groups', 1 << 32)),
-        ('face-dispinfo', setter('faces', '_dispinfo_ind', big16)),
-        ('face-lightmap-mins', setter('orig_faces', 'lightmap_mins', (1 << 31, 0))),
+        ('face-dispinfo', setter('faces', '_dispinfo_ind', (1 << 31) if vit else big16)),
+        ('face-lightmap-mins', setter('faces' if vit else 'orig_faces', 'lightmap_mins', (1 << 31, 0))),
         ('leaf-cluster', setter('visleafs', 'cluster_id', big16)),
         ('leaf-min-water-dist', setter('visleafs', 'min_water_dist', 70000)),
-        ('leaf-area', setter('visleafs', 'area', (1 << 16) if wide else 600)),
+        ('leaf-area', setter('visleafs', 'area', (1 << 16) if wide else 40000 if vit else 600)),
         ('leaf-water-id', setter('visleafs', 'water_id', big16)),
         ('node-area', setter('nodes', 'area_ind', 40000)),
         ('cubemap-size', setter('cubemaps', 'size', 1 << 31)),
@@ -620,7 +626,16 @@ def fit_mutations(layout: str, sprp: str) -> List[Tuple[str, Callable[[Dict[str,
         ('texinfo-flags', setter('texinfo', 'flags', SurfFlags(0xFFFFFFFF))),
         ('overlay-render-order', setter('overlays', 'render_order', 4)),
     ]
-    if not wide:
+    if vit:
+        # fields the vitamin layout does not store cannot overflow; its own widths differ
+        muts = [m for m in muts if m[0] not in ('face-smoothing-groups', 'primitive-index')]
+        muts.append(('node-mins', setter('nodes', 'mins', Vec(float(1 << 31), 0, 0))))
+        muts.append(('leaf-maxes', setter('visleafs', 'maxes', Vec(0, float(1 << 32), 0))))
+        muts.append(('leaf-mins-negative', setter('visleafs', 'mins', Vec(-1, 0, 0))))
+        muts.append(('face-vitamin-flags', setter('faces', 'vitamin_flags', 256)))
+        muts.append(('brushside-extra-byte', lambda vals: next((setattr(sd, '_unknown_bevel_bits', 256) or True
+                                                                 for b in vals['brushes'] for sd in b.sides), False)))
+    elif not wide:
         muts.append(('node-mins', setter('nodes', 'mins', Vec(40000, 0, 0))))
         muts.append(('leaf-maxes', setter('visleafs', 'maxes', Vec(0, -40000, 0))))
     if num >= 7 and sprp not in ('V_LIGHTMAP_v7', 'V_LIGHTMAP_v10'):
@@ -641,7 +656,7 @@ def engine_fit(run, seed: int, ci: int, layout: str, tmp: str, k: int = 0) -> No
     W1 = base_world(seed, ci, layout, sprp, False)
     W2 = value_world(seed, ci, W1, scale=rng.choice((2, 3)), sprp_props=2)
     muts = fit_mutations(layout, sprp)
-    name, mut = muts[(k // len(G.LAYOUTS)) % len(muts)]
+    name, mut = muts[(k // 6) % len(muts)]
     case = {'engine': 'fit', 'ci': ci, 'layout': layout, 'sprp': sprp, 'field': name, 'k': k}
     res = assign_and_reread(run, W1, W2, list(G.VIEWS), tmp, 'fit', case, rng, mutate=mut)
     if res is None:
@@ -650,6 +665,7 @@ def engine_fit(run, seed: int, ci: int, layout: str, tmp: str, k: int = 0) -> No
     if res[0] == 'rejected':
         run.count('fit_rejected')
         run.count('fit_' + name)
+        run.count('layout_' + layout)
     else:
         run.violation(f'fit {layout} sprp={sprp}: a value too large for the on-disk field "{name}" was saved without an error',
                       witness={'field': name}, key='model-name-truncated' if name.endswith('model-name') else 'silently-truncated-' + name, engine='fit', case=case)
@@ -715,7 +731,7 @@ def main(run, shard=(0, 1)) -> None:
     probe.start()
     thorough = run.tier == 'thorough'
     tmp = tempfile.mkdtemp(prefix='rv-c11-', dir=os.environ.get('VERIF_WORK') or None)
-    layouts = list(G.LAYOUTS)
+    layouts = [name for name in G.LAYOUTS if name != 'vitamin']
     ci = 0
     try:
         # replace-all: cycle layouts x static prop versions so that every writer version is exercised
@@ -726,11 +742,11 @@ def main(run, shard=(0, 1)) -> None:
             if mine(ci, shard):
                 lay, ver = combos[k % len(combos)]
                 engine_replace_all(run, run.seed, ci, lay, tmp, ver, lzma=(k % 3 == 0), wide_vis=(k % 17 == 5))
-        for k in range(20000 if thorough else 500):
+        for k in range(14000 if thorough else 500):
             ci += 1
             if mine(ci, shard):
                 engine_single(run, run.seed, ci, layouts[k % len(layouts)], tmp)
-        for k in range(9000 if thorough else 420):
+        for k in range(6000 if thorough else 420):
             ci += 1
             if mine(ci, shard):
                 engine_fit(run, run.seed, ci, layouts[k % len(layouts)], tmp, k)
@@ -738,6 +754,20 @@ def main(run, shard=(0, 1)) -> None:
             ci += 1
             if mine(ci, shard):
                 engine_rle(run, run.seed, ci)
+        # VitaminSource, appended so that the cases of the other layouts keep their numbers
+        vit_vers = G.sprp_versions_for('vitamin')
+        for k in range(len(vit_vers) * (10 if thorough else 1)):
+            ci += 1
+            if mine(ci, shard):
+                engine_replace_all(run, run.seed, ci, 'vitamin', tmp, vit_vers[k % len(vit_vers)], lzma=(k % 3 == 0), wide_vis=False)
+        for k in range(2400 if thorough else 80):
+            ci += 1
+            if mine(ci, shard):
+                engine_single(run, run.seed, ci, 'vitamin', tmp)
+        for k in range(1500 if thorough else 70):
+            ci += 1
+            if mine(ci, shard):
+                engine_fit(run, run.seed, ci, 'vitamin', tmp, k * 6)
     finally:
         shutil.rmtree(tmp, ignore_errors=True)
     probe.report(run)
